@@ -1,4 +1,5 @@
 """C04 - symbols and two-term expressions evaluate to their arithmetic value everywhere."""
+import re
 from vlib import asmmon, forms
 from vlib.ref import mc6809 as R
 from vlib.core import rng
@@ -122,7 +123,7 @@ def gen_cases(tier, seed):
                 yield {"id": "%s/%s/%d" % (pos, expr, k), "pos": pos, "lines": lines, "target": target, "left": left, "right": right, "op": op, "equs": equs,
                        "mn": mn, "expr": expr}
         # single symbols (no operator) in every position, every EQU spelling
-        for v in ([0, 5, 200, 255] + ([256, 0x1234, 65535] if pos not in WIDTH else [])):
+        for v in ([0, 5, 200, 255] + ([256, 0x1234, 65535] if pos not in WIDTH else []) + [-1, -2, -128, -129, -255, -256, -300, -32768]):
             for order in ("before", "after"):
                 for _ in range(8 if thorough else 1):
                     lines, target, expr, equs, mn = build(pos, None, "", None, r.choice(ORGS) if pos != "rmb" else 0x1000, r, single=("equ", v, order))
@@ -170,6 +171,18 @@ def run_case(case, ctx):
         ctx.outcome("not-ok:" + o.outcome)
         ctx.violation("expr", pos, "NOT-ACCEPTED:%s:%s@%s" % (o.outcome, o.exc, o.where), wit, tr)
         return
+    if not op and left and left[0] == "equ" and o.outcome == "diag" and pos not in ("equ",):
+        # "each EQU symbol replaced by its defined constant": a statement that is accepted with the constant written in place
+        # (in decimal) cannot be rejected when the same constant is reached through a symbol
+        name = case["expr"]
+        lit_lines = [re.sub(r"(?<![A-Z0-9@])%s(?![A-Z0-9@])" % re.escape(name), str(left[1]), l) if i == case["target"] else l
+                     for i, l in enumerate(case["lines"])]
+        o_lit = asmmon.assemble(lit_lines, keep_program=False)
+        if o_lit.outcome == "ok":
+            ctx.outcome("symbol-rejected-literal-accepted")
+            ctx.violation("expr", pos, "REJECTED-THROUGH-SYMBOL-ACCEPTED-AS-LITERAL", dict(wit, literal_statement=lit_lines[case["target"]].strip(),
+                          literal_bytes=bytes(o_lit.stmts[case["target"]]["bytes"]).hex()), dict(tr, result="negative" if left[1] < 0 else "non-negative"))
+            return
     if pos == "org-label":
         # accepted only if the label really ends up at the address the ORG names (it cannot: the label follows the ORG)
         if o.outcome == "diag":
